@@ -34,6 +34,7 @@ type histSim struct {
 	present []bool
 	log     []int // mutation log for undo: +id+1 = added, -(id+1) = removed
 	steps   []hstep
+	nReadd  int // number of 're-add held pointers' steps (statistics)
 }
 
 func (h *histSim) ids(want bool) []int {
@@ -276,6 +277,46 @@ func (h *histSim) mutate(c *hlib.Ctx) {
 				}
 			}
 		}
+	case r < 78 && r >= 70 && len(pres) > 0:
+		// AddMesh of a shallow copy (m.AddMesh(m.Copy()), AddMesh of a part taken from a Copy): face
+		// POINTERS that are already in the mesh are added again - mostly with the vertex index cached -,
+		// then some of them are removed and the diagnostics are asked
+		if c.Rng.Intn(4) != 0 {
+			h.touch(c, histTouchIndex[c.Rng.Intn(len(histTouchIndex))])
+		}
+		sub := pres
+		switch c.Rng.Intn(3) {
+		case 0:
+			sub = h.component(pres[c.Rng.Intn(len(pres))])
+		case 1:
+			c.Rng.Shuffle(len(sub), func(i, j int) { sub[i], sub[j] = sub[j], sub[i] })
+			sub = sub[:1+c.Rng.Intn(len(sub))]
+		}
+		if len(sub) > 60 {
+			sub = sub[:60]
+		}
+		for _, id := range sub {
+			h.readd(id)
+		}
+		h.nReadd++
+		if c.Rng.Intn(3) == 0 {
+			h.observe(c, false)
+		}
+		if c.Rng.Intn(4) != 0 {
+			comp := h.component(sub[c.Rng.Intn(len(sub))])
+			if len(comp) > 40 || c.Rng.Intn(3) == 0 {
+				comp = []int{sub[c.Rng.Intn(len(sub))]}
+			}
+			for _, id := range comp {
+				h.remove(id)
+			}
+			h.observe(c, c.Rng.Intn(2) == 0)
+			if c.Rng.Intn(2) == 0 {
+				for _, id := range comp {
+					h.readd(id)
+				}
+			}
+		}
 	case r < 70 && len(h.tris) > 0:
 		// no-ops: Remove of a pointer that is not in the mesh, Add of one that is
 		id := c.Rng.Intn(len(h.tris))
@@ -377,6 +418,9 @@ func runHist(c *hlib.Ctx, s *soup3, h *histSim, label string) {
 				sim.present[sp.id] = false
 				toks = append(toks, fmt.Sprintf("r:%d", sp.id))
 			case 'A':
+				if sim.present[sp.id] && model3d.VerifMeshHasIndex(m) {
+					stats["hist3:add-of-a-pointer-already-in-the-mesh-with-index-cached"]++
+				}
 				m.Add(ptrs[sp.id])
 				sim.present[sp.id] = true
 				toks = append(toks, fmt.Sprintf("A:%d", sp.id))
@@ -558,6 +602,7 @@ func kindHist3(c *hlib.Ctx) {
 		label += "+pillow"
 	}
 	h := genHist(c, s, c.Rng.Intn(9))
+	c.Stat("hist3:re-add-held-pointers-steps", h.nReadd)
 	runHist(c, s, h, label)
 }
 
@@ -629,6 +674,33 @@ func histFixed(c *hlib.Ctx) {
 			st = append(st, hstep{kind: 'A', id: id})
 		}
 		run(tet, "fixed-emptied", cat(st, obsAll)...)
+	}
+	// m.AddMesh(m.Copy()) with the index cached: every pointer is added a second time; then one
+	// of two components touching in a vertex is removed (its faces must leave every fan), and put back
+	{
+		s := tet.copy()
+		n := len(s.coords)
+		s.coords = append(s.coords, P(9, 0, 0), P(9, 1, 0), P(9, 0, 1))
+		a := s.faces[0][0]
+		s.faces = append(s.faces, [3]int{a, n, n + 1}, [3]int{a, n + 1, n + 2}, [3]int{a, n + 2, n}, [3]int{n, n + 2, n + 1})
+		for _, warm := range []string{"sv", "vs", ""} {
+			var st []hstep
+			if warm != "" {
+				st = append(st, hstep{kind: 't', name: warm})
+			}
+			for id := 0; id < 8; id++ {
+				st = append(st, hstep{kind: 'A', id: id})
+			}
+			st = append(st, obsAll...)
+			for id := 4; id < 8; id++ {
+				st = append(st, hstep{kind: 'r', id: id})
+			}
+			st = append(st, obsAll...)
+			for id := 7; id >= 4; id-- {
+				st = append(st, hstep{kind: 'A', id: id})
+			}
+			run(s, "fixed-readd", cat(st, obsAll)...)
+		}
 	}
 	// open and close a tetrahedron with the index cached: the slices are reordered by the removal
 	run(tet, "fixed-reopen", cat([]hstep{{kind: 't', name: "sv"}, {kind: 'r', id: 0}}, obsAll, []hstep{{kind: 'A', id: 0}}, obsAll,
@@ -792,6 +864,33 @@ func kindHist2(c *hlib.Ctx) {
 						for _, id := range comp {
 							readd(id, true)
 						}
+					}
+				}
+			case q < 80 && q >= 68 && len(pres) > 0:
+				// m.AddMesh(m.Copy()): pointers that are already in the mesh are added again, mostly with
+				// the vertex index cached; then the diagnostics are asked, sometimes after a removal
+				if c.Rng.Intn(4) != 0 {
+					touch(hist2TouchIndex[c.Rng.Intn(len(hist2TouchIndex))])
+				}
+				sub := pres
+				if c.Rng.Intn(2) == 0 {
+					c.Rng.Shuffle(len(sub), func(i, j int) { sub[i], sub[j] = sub[j], sub[i] })
+					sub = sub[:1+c.Rng.Intn(len(sub))]
+				}
+				if len(sub) > 60 {
+					sub = sub[:60]
+				}
+				for _, id := range sub {
+					readd(id, false)
+				}
+				c.Stat("hist2:re-add-held-pointers-steps", 1)
+				observe(c.Rng.Intn(2) == 0)
+				if c.Rng.Intn(2) == 0 {
+					id := sub[c.Rng.Intn(len(sub))]
+					remove(id, true)
+					observe(false)
+					if c.Rng.Intn(2) == 0 {
+						readd(id, true)
 					}
 				}
 			case q < 68 && len(segs) > 0:
